@@ -275,7 +275,10 @@ func generate(a *hlib.Args) []rl.Case {
 			Threads: []rl.ThreadSpec{mx(1), full(1)}, Sched: s})
 	}
 	part1 := validMerges(1, 8, 2, 5)
-	for _, s := range part1 {
+	for k, s := range part1 {
+		if !thorough && k%3 != 0 {
+			continue // for the cdb driver a partial reload is the same code path as a full one
+		}
 		cases = append(cases, rl.Case{Kind: "sched", Class: "all-1q1r-partial", Cfg: rl.Config{Backend: "cdb"}, Disk: smallDisk(0), P0: 0,
 			Threads: []rl.ThreadSpec{env(0, gen(5)), mx(1), partial()}, Sched: cat([]int{0}, s)})
 	}
